@@ -6,9 +6,10 @@ rows = []
 for m in sorted(glob.glob(os.path.join(VERIF, "seeded", "*", "meta.json"))):
     d = json.load(open(m)); name = os.path.basename(os.path.dirname(m))
     rows.append((name, d))
-print("| seed | what it breaks (author's summary, shortened) | caught by (quick tier) | what the catching checks report (violation key: count) | first version of the checks |")
-print("|---|---|---|---|---|")
+print("| seed | what it breaks (author's summary, shortened) | own check | caught by (quick tier) | what the catching checks report (violation key: count) | first version of the checks |")
+print("|---|---|---|---|---|---|")
 caught = 0
+own_caught = 0
 for name, d in rows:
     cb = d.get("caught_by")
     keys = []
@@ -19,10 +20,15 @@ for name, d in rows:
     fv = d.get("first_version_of_the_checks")
     fvs = "" if not fv else ("missed by %s, then strengthened" % ",".join(fv["checks_run"]) if not fv["caught_by"] else "caught")
     if cb: caught += 1
-    print("| %s | %s | %s | %s | %s |" % (name, (d.get("summary") or "").replace("\n", " ").replace("|", "/")[:170], ", ".join(cb) if cb else ("**not caught**" if cb is not None else "not evaluated"),
+    own = d.get("property") or name[:3]
+    own_ok = own in (cb or [])
+    if own_ok: own_caught += 1
+    fvown = ""
+    if fv and own in (fv.get("checks_run") or []) and own not in (fv.get("caught_by") or []) and own_ok: fvown = " (after strengthening)"
+    print("| %s | %s | %s | %s | %s | %s |" % (name, (d.get("summary") or "").replace("\n", " ").replace("|", "/")[:170], ("yes" + fvown) if own_ok else "no", ", ".join(cb) if cb else ("**not caught**" if cb is not None else "not evaluated"),
                                        "; ".join(keys).replace("|", "/")[:260], fvs))
 print()
-print("%d of %d confirmed seeds are caught by at least one quick check." % (caught, len(rows)))
+print("%d of %d confirmed seeds are caught by at least one quick check; %d of them by the check of the property they were written against." % (caught, len(rows), own_caught))
 print()
 b = sorted(glob.glob(os.path.join(VERIF, "benign", "*", "eval.json")))
 if b:
